@@ -33,6 +33,9 @@ pub struct Seam<'a> {
     pub nested_at: Option<usize>,
     pub nested_hook: Option<Box<dyn FnMut() + 'a>>,
     pub nested_ran: bool,
+    /// the format presents itself as not human-readable (`is_human_readable() == false`),
+    /// the way self-describing binary formats (CBOR, MessagePack) do
+    pub binary: bool,
 }
 
 pub type SeamCell<'a> = RefCell<Seam<'a>>;
@@ -46,7 +49,7 @@ pub enum Hit {
 
 impl<'a> Seam<'a> {
     pub fn new(sched: &'a Sched, me: usize, fault: Option<(usize, SFault)>) -> Self {
-        Seam { sched, me, calls: 0, fault, fired: None, nested_at: None, nested_hook: None, nested_ran: false }
+        Seam { sched, me, calls: 0, fault, fired: None, nested_at: None, nested_hook: None, nested_ran: false, binary: false }
     }
 }
 
@@ -338,7 +341,7 @@ impl<'s, 'a> ser::Serializer for NodeSer<'s, 'a> {
         Ok(Node::Str(s))
     }
     fn is_human_readable(&self) -> bool {
-        true
+        !self.seam.borrow().binary
     }
 }
 
@@ -657,7 +660,7 @@ impl<'de, 's, 'a, 'n> de::Deserializer<'de> for NodeDe<'s, 'a, 'n> {
     }
 
     fn is_human_readable(&self) -> bool {
-        true
+        !self.seam.borrow().binary
     }
 
     serde::forward_to_deserialize_any! {
